@@ -127,14 +127,15 @@ def lean_phase(mod, tier: str):
     pid = mod.ID
     res = {"ok": True, "broken": [], "driver_ok": True, "axioms": {}, "log": []}
     # 1. translate
-    try:
-        import translate
-        gen_obl = translate.run(REPO, LEAN / "CsVerif" / "Gen")
-        res["generated_tables"] = gen_obl
-    except Exception as e:  # noqa: BLE001
-        res["ok"] = False
-        res["broken"].append(f"translator: {type(e).__name__}: {e}")
-        res["log"].append(traceback.format_exc())
+    import translate
+    deps = list(getattr(mod, "GEN", []))
+    gen_errors = {}
+    gen_obl = translate.run(REPO, LEAN / "CsVerif" / "Gen", gen_errors)
+    res["generated_tables"] = [t for t in gen_obl if t.split(":")[0] in deps]
+    for stem, err in gen_errors.items():
+        if stem in deps:
+            res["ok"] = False
+            res["broken"].append(f"translator plug-in gen/{stem}.py cannot translate the source: {err}")
     props = LEAN / "CsVerif" / "Props" / f"{pid}.lean"
     thms = theorems_in(props)
     for extra in getattr(mod, "EXTRA_PROP_FILES", []):
